@@ -700,6 +700,13 @@ func cmdCheck(args []string) int {
 		distinct = len(inter)
 		rule = "one evaluation = one seeded history on the simulated world executed under the deterministic scheduler; distinct = distinct interleaving fingerprints (per synchronisation object, the sequence of goroutine ids operating on it) among runs with at least 2 context switches"
 	}
+	// representation-pairing cells (op x kind x kind) actually reached, of the 81 possible
+	cells := map[string]bool{}
+	for k := range tot.Pairings {
+		if i := strings.IndexByte(k, ':'); i > 0 && len(k) >= i+3 {
+			cells[k[:i+3]] = true
+		}
+	}
 	var samples []interface{}
 	for _, t := range tot.Samples {
 		if len(samples) >= 3 {
@@ -732,6 +739,7 @@ func cmdCheck(args []string) int {
 			"faults_fired":          tot.Faults,
 			"disk_tuples":           len(tot.DiskTuples),
 			"representation_pairings": tot.Pairings,
+			"pairing_cells_reached": fmt.Sprintf("%d of 81 (9 operations incl. in-place and cardinality shortcuts x 3 x 3 chunk kinds)", len(cells)),
 			"collections_triggered": tot.GCs,
 			"scheduler_decisions":   tot.Decisions,
 			"simulated_executions_under_scheduler": tot.SchedRuns,
